@@ -130,12 +130,16 @@ def _match_tests(cfg, var) -> List:
     return out
 
 
-def _bypass(cfg, vars_: List[str]):
+def _bypass(cfg, vars_: List[str], strict: bool = False):
+    """Edges taken when one of *vars_* is absent.  *strict*: only `is None` / `is not None` tests count - a truthiness
+    test also takes that edge for a header that is present but empty."""
     out = []
     for n in cfg.nodes:
         if n.kind != "test":
             continue
         for v in vars_:
+            if strict and isinstance(n.ast, ast.Name):
+                continue
             lab = test_polarity_absent(n.ast, v)
             if lab:
                 out.append((n, lab))
@@ -154,7 +158,9 @@ def _precondition_obligations(ctx, fi, header, fail_label, effects, effect_desc,
     if not tests:
         return [ctx.bad(construct, where(fi, defn), "%s evaluated before %s" % (header, effect_desc),
                         "the value of %s is read but never passed to etag_matches()" % header)]
-    byp = _bypass(cfg, list(var) + list(extra_bypass_vars))
+    # If-Match: "present but empty" is a header that matches nothing (412), so only an `is None` test may skip the
+    # evaluation; If-None-Match with no entity tag forbids nothing, a truthiness test is equivalent there
+    byp = _bypass(cfg, list(var), strict=(header == "If-Match")) + _bypass(cfg, list(extra_bypass_vars))
     covered, blocked = guarded(cfg, effects, tests, fail_label, byp)
     var = "/".join(var)
     obs = []
@@ -408,6 +414,21 @@ def p3(ctx):
         fail = "t" if isinstance(tests[0].ast.ops[0], ast.NotEq) else "f"
         byp = _bypass(cfg, ["etag"])
         covered, blocked = guarded(cfg, muts, tests, fail, byp)
+        # ... with the etag the member has NOW (read in this call), not with what an earlier scan remembered
+        du_ = DefUse(cfg)
+        stale = []
+        for tn in tests:
+            for side in (tn.ast.left, tn.ast.comparators[0]):
+                deps = depends_on(du_, tn, side)
+                if "etag" in deps:
+                    continue
+                cached = sorted(d_ for d_ in deps if d_ in ("self._fname_to_uid", "self._uid_to_fname"))
+                if cached:
+                    stale.append((tn, cached))
+        obs.append(ctx.ob(not stale, fi.qualname, where(fi, tests[0]), "etag compared with a fresh read",
+                          "the current etag is computed in this call",
+                          "%s compares `etag` with a value taken from %s (filled by the last uid scan), not with the member's current etag: after an "
+                          "overwrite a stale etag still deletes and the current one is refused" % (fi.short, stale[0][1] if stale else "")))
         obs.append(ctx.ob(covered and blocked, fi.qualname, where(fi, tests[0]), "etag compared before delete",
                           "every path to the deletion compares etag with the current one (or etag is None); mismatch cannot reach it",
                           "the deletion is reachable %s" % ("without the etag comparison" if not covered else "from the mismatch side of the etag comparison")))
